@@ -81,6 +81,7 @@ type Reconcile struct {
 	WLoop    *ast.RangeStmt // loop over W that contains the create site
 	KLoop    *ast.ForStmt   // scale-down loop over K
 	ULoop    *ast.ForStmt   // update walk over W
+	FreshOK  bool           // allocation summary: the constructor returns an uncreated, non-terminating pod
 }
 
 func ifaceMethod(p *load.Prog, pkg, iface, method string) *types.Func {
@@ -177,7 +178,7 @@ func (c *Ctx) ReconcileRoles() *Reconcile {
 			r.Updates = append(r.Updates, call)
 		}
 	}
-	r.Fn, r.An = c.Analysis(host)
+	r.Fn = c.E.FnOf(host)
 	// parameters by type
 	for _, f := range host.Decl.Type.Params.List {
 		for _, n := range f.Names {
@@ -329,6 +330,28 @@ func (c *Ctx) ReconcileRoles() *Reconcile {
 		c.Fail("status.CurrentRevision / status.UpdateRevision are not assigned from ControllerRevision parameters' names")
 		return nil
 	}
+	// allocation summary of the constructor, installed as facts after each store of a fresh pod into W
+	if r.Ctor != nil {
+		r.FreshOK = c.freshZero(r.Ctor, []string{"Status", "Phase"}, 0) && c.freshZero(r.Ctor, []string{"ObjectMeta", "DeletionTimestamp"}, 0)
+		if r.FreshOK {
+			r.Fn.PostFacts = map[ast.Node]*gf.Formula{}
+			ast.Inspect(host.Decl.Body, func(n ast.Node) bool {
+				as, ok := n.(*ast.AssignStmt)
+				if !ok || len(as.Lhs) != 1 || len(as.Rhs) != 1 {
+					return true
+				}
+				call, ok := ast.Unparen(as.Rhs[0]).(*ast.CallExpr)
+				if !ok || gf.StaticCallee(info, call) != r.Ctor {
+					return true
+				}
+				if id := rootIdent(as.Lhs[0]); id != nil && info.ObjectOf(id) == r.W {
+					r.Fn.PostFacts[as] = c.Want(r.Fn, as.End(), `$1 != nil && $1.Status.Phase == "" && $1.DeletionTimestamp == nil`, as.Lhs[0])
+				}
+				return true
+			})
+		}
+	}
+	_, r.An = c.Analysis(host)
 	// loops
 	ast.Inspect(host.Decl.Body, func(n ast.Node) bool {
 		switch x := n.(type) {
